@@ -27,11 +27,6 @@ func JSONExpressible(n *Node) (bool, string) {
 		if n.Elem.Kind == KByteArr {
 			return true, "" // {type, key: hex} object, read back through the pointer
 		}
-		switch n.Elem.Kind {
-		case KStruct, KCustom, KPtr, KIface:
-		default:
-			return false, "pointer_to_scalar" // MapEncode and MapDecode both refuse pointers to numbers, bools and strings
-		}
 		return JSONExpressible(n.Elem)
 	case KSlice, KArray:
 		return JSONExpressible(n.Elem)
